@@ -212,3 +212,140 @@ def run_many(args):
         return {'n': n, 'pairs': pairs, 'problems': problems, 'random_suffixes': len(randoms)}
     finally:
         box.destroy()
+
+
+# ---- C15: crash points of trash-restore / trash-empty / trash-rm -------------------------------------------------
+
+import shutil as _shutil
+import tempfile as _tempfile
+from harness import world as _world
+
+PURGE_SCENARIOS = {
+    # name: (command, argv builder key, selected entries, cross-volume restore?)
+    'empty-all':     ('empty', [], ['e1', 'e2', 'e3', 'e4']),
+    'empty-days':    ('empty', ['1'], ['e1', 'e2']),
+    'rm-all':        ('rm', ['*'], ['e1', 'e2', 'e3', 'e4']),
+    'rm-one':        ('rm', ['*e2'], ['e2']),
+    'restore-all':   ('restore', ['0-3'], ['e1', 'e2', 'e3', 'e4']),
+    'restore-tree':  ('restore', ['1'], ['e2']),
+    'restore-two':   ('restore', ['3,0'], ['e1', 'e4']),
+}
+
+
+class PurgeBox(object):
+    """home trash with four entries: e1 file, e2 deep tree (restores across volumes), e3 link, e4 file on the other
+    volume; two orphans (a file and a tree)"""
+
+    def __init__(self, uid=1000):
+        self.base = _tempfile.mkdtemp(prefix='vp-', dir=_world.SHM)
+        self.root = os.path.join(self.base, 'w')
+        self.uid = uid
+        self.home = os.path.join(self.root, 'home', 'u')
+        os.makedirs(self.home)
+        os.makedirs(os.path.join(self.root, 'm1'))
+        os.makedirs(os.path.join(self.root, 'cwd'))
+        self.mounts = [self.root, os.path.join(self.root, 'm1')]
+        self.tdir = os.path.join(self.home, '.local', 'share', 'Trash')
+        os.makedirs(os.path.join(self.tdir, 'files'))
+        os.makedirs(os.path.join(self.tdir, 'info'))
+        self.dest = {'e1': os.path.join(self.root, 'r', 'sub', 'name e1'), 'e2': os.path.join(self.root, 'm1', 'r', 'tree-e2'),
+                     'e3': os.path.join(self.root, 'r', 'link-e3'), 'e4': os.path.join(self.root, 'm1', 'file-e4')}
+        self.dates = {'e1': '2020-01-01T00:00:01', 'e2': '2020-01-01T00:00:02', 'e3': '2020-01-05T00:00:03', 'e4': '2020-01-05T00:00:04'}
+        self.dig = {}
+        f = os.path.join(self.tdir, 'files')
+        for e in ('e1', 'e2', 'e3', 'e4', 'o1', 'o2'):
+            p = os.path.join(f, 'slot-' + e)
+            if e in ('e1', 'e4', 'o1'):
+                with open(p, 'w') as fh:
+                    fh.write('payload of %s' % e + 'x' * 3000)
+            elif e == 'e3':
+                os.symlink('/nonexistent/target-of-e3', p)
+            else:
+                os.makedirs(os.path.join(p, 'a', 'b'))
+                for i, q in enumerate(['x', 'a/y', 'a/b/z']):
+                    with open(os.path.join(p, q), 'w') as fh:
+                        fh.write('%s %s %d' % (e, q, i))
+                os.symlink('../x', os.path.join(p, 'a', 'l'))
+            self.dig[e] = _world.digest_of_sub(_world.snapshot_sub(os.fsencode(p)))
+            if e.startswith('e'):
+                with open(os.path.join(self.tdir, 'info', 'slot-' + e + '.trashinfo'), 'wb') as fh:
+                    fh.write(_world.format_info(os.fsencode(self.dest[e]), self.dates[e]))
+
+    def destroy(self):
+        _shutil.rmtree(self.base, ignore_errors=True)
+
+    def env(self, extra=None):
+        e = {'PATH': '/usr/bin:/bin', 'HOME': self.home, 'TRASH_DATE': '2020-01-03T00:00:00'}
+        if extra:
+            e.update(extra)
+        return e
+
+    def shim(self, **kw):
+        c = {'root': self.root, 'mounts': self.mounts, 'uid': self.uid, 'seed': 1, 'trace': True}
+        c.update(kw)
+        return c
+
+    def run(self, cmd, args, **shimkw):
+        if cmd == 'restore':
+            return runner.run('trash-restore', ['/'], os.path.join(self.root, 'cwd'), self.env(), stdin=args[0].encode() + b'\n',
+                              shim_cfg=self.shim(**shimkw), timeout=20)
+        return runner.run('trash-' + cmd, list(args), os.path.join(self.root, 'cwd'), self.env(), shim_cfg=self.shim(**shimkw), timeout=20)
+
+    def project(self):
+        info, pay, dest = {}, {}, {}
+        for e in ('e1', 'e2', 'e3', 'e4', 'o1', 'o2'):
+            p = os.fsencode(os.path.join(self.tdir, 'files', 'slot-' + e))
+            if os.path.lexists(p):
+                pay[e] = 'whole' if _world.digest_of_sub(_world.snapshot_sub(p)) == self.dig[e] else 'partial'
+            else:
+                pay[e] = 'gone'
+            if e.startswith('e'):
+                info[e] = 'present' if os.path.lexists(os.path.join(self.tdir, 'info', 'slot-' + e + '.trashinfo')) else 'gone'
+                d = os.fsencode(self.dest[e])
+                if os.path.lexists(d):
+                    dest[e] = 'whole' if _world.digest_of_sub(_world.snapshot_sub(d)) == self.dig[e] else 'partial'
+                else:
+                    dest[e] = 'absent'
+        return info, pay, dest
+
+
+def purge_baseline(scen):
+    runner.prepare()
+    cmd, args, sel = PURGE_SCENARIOS[scen]
+    box = PurgeBox()
+    try:
+        res = box.run(cmd, args)
+        ops = [e for e in res['trace'] if 'seq' in e]
+        info, pay, dest = box.project()
+        return len(ops), [[e['op'], e['raw'], e['res']] for e in ops], res['exit'], {'info': info, 'pay': pay, 'dest': dest}
+    finally:
+        box.destroy()
+
+
+def run_purge_crash(args):
+    scen, k = args
+    runner.prepare()
+    cmd, argv, sel = PURGE_SCENARIOS[scen]
+    box = PurgeBox()
+    try:
+        res = box.run(cmd, argv, crash_at=k)
+        killed = res['exit'] == 137
+        info, pay, dest = box.project()
+        last = [e for e in res['trace'] if 'seq' in e][-1:] or [{}]
+        o1 = {'info': info, 'pay': pay, 'dest': dest, 'done': not killed, 'cmd': cmd, 'selected': sel, 'purged': False}
+        # recovery: empty / rm are simply run again; what a killed restore leaves in the trash must be purgeable
+        if cmd == 'restore':
+            r2 = box.run('empty', [])
+        else:
+            r2 = box.run(cmd, argv)
+        info2, pay2, dest2 = box.project()
+        o2 = {'info': info2, 'pay': pay2, 'dest': dest2, 'done': cmd != 'restore',
+              'cmd': cmd if cmd != 'restore' else 'recovery-purge',
+              'selected': sel if cmd != 'restore' else ['e1', 'e2', 'e3', 'e4'], 'purged': cmd == 'restore'}
+        if cmd == 'restore':
+            # destinations reached before the kill must survive the recovery purge untouched
+            o2['dest_kept'] = all(dest2[e] == dest[e] for e in dest)
+        return {'scen': scen, 'k': k, 'killed': killed, 'at': [last[0].get('op'), last[0].get('raw')], 'after_kill': o1,
+                'after_rerun': o2, 'rerun_exit': r2['exit'], 'rerun_err': r2['stderr'][-300:].decode('utf-8', 'replace')}
+    finally:
+        box.destroy()
